@@ -13,7 +13,7 @@ if [ "${SKIP_TESTS:-}" != 1 ]; then
   (cd "$S/repo" && go1.26.8 build ./... && unshare -n sh -c "ip link set lo up; go1.26.8 test -vet=off -count=1 ./..." > "$S/tests.log" 2>&1) && T=pass || T=FAIL
   if [ $T = FAIL ]; then (cd "$S/repo" && unshare -n sh -c "ip link set lo up; go1.26.8 test -vet=off -count=1 ./..." > "$S/tests.log" 2>&1) && T=pass; fi
 else T=skipped; fi
-VERIF_EVIDENCE_DIR="$S/ev" VERIF_REPLAY_DIR="$S/rp" VERIF_REPO="$S/repo" VERIF_SCRATCH="$S/build" /verif/check "$PROP" "$TIER" > "$S/check.log" 2>&1; RC=$?
+VERIF_EVIDENCE_DIR="$S/ev" VERIF_REPLAY_DIR="$S/rp" VERIF_REPO="$S/repo" VERIF_SCRATCH="$S/build" ${VERIF_HOME:-/verif}/check "$PROP" "$TIER" > "$S/check.log" 2>&1; RC=$?
 grep -E "^VIOLATION|^  sig:" "$S/check.log" | head -8 | cut -c1-200
 tail -1 "$S/check.log" | cut -c1-160
 echo "tests=$T check_rc=$RC prop=$PROP tier=$TIER diff=$(basename "$DIFF")"
